@@ -1,6 +1,6 @@
 (* Correspondence entry point: one op name + arguments -> canonical observation.
    Extracted to OCaml (Extract.v) and driven by ocaml/driver.ml. *)
-From Ufw Require Import Base.Val Base.Bits Base.Errno Model.Crc Model.ByteBuffer Model.Endpoints Model.Varint Model.Ring.
+From Ufw Require Import Base.Val Base.Bits Base.Errno Model.Crc Model.ByteBuffer Model.Endpoints Model.Varint Model.Ring Model.Slip.
 Local Open Scope string_scope.
 Local Open Scope N_scope.
 
@@ -127,6 +127,63 @@ Definition run_ring (op : string) (a : list val) : list val :=
     ring_run (ring_init (N.to_nat (argN 0 a))) (map (rop_decode (argN 1 a)) (pairs (argLN 2 a)))
   else [VS "unknown-op"].
 
+(* ---------------- endpoint scripts ---------------- *)
+Definition ev_decode (z : Z) : ev :=
+  if (0 <? z)%Z then Give (Z.to_N z)
+  else if (z =? 0)%Z then Zero
+  else if (z =? -4)%Z then Intr
+  else if (z =? -11)%Z then Again
+  else Fail (errno_of_N (Z.to_N (- z))).
+Definition mk_src (octet : bool) (stream : list N) (script : list Z) : src :=
+  {| s_octet := octet; s_stream := stream; s_script := map ev_decode script; s_calls := 0 |}.
+Definition mk_snk (octet : bool) (script : list Z) : snk :=
+  {| k_octet := octet; k_got := []; k_script := map ev_decode script; k_calls := 0 |}.
+Definition verrno (e : option errno) : val := match e with None => VN 0 | Some e => VS (ename e) end.
+
+(* ---------------- SLIP (C12) ---------------- *)
+Definition sstate_of (n : N) : sstate := match n with 0 => SearchStart | 1 => SearchEnd | _ => Normal end.
+Definition sstate_n (s : sstate) : N := match s with SearchStart => 0 | SearchEnd => 1 | Normal => 2 end.
+
+Fixpoint slip_dec_calls (n : nat) (sof : bool) (st : sstate) (s : src) (k : snk) (total : nat) : list val :=
+  match n with
+  | O => []
+  | S n' =>
+      match slip_decode_op sof st s k with
+      | None => [VS "out-of-fuel"]
+      | Some (rc, st', s', k') =>
+          let emitted := skipn (length (k_got k)) (k_got k') in
+          let pos := N.of_nat (total - length (s_stream s')) in
+          match rc with
+          | DFrame => [VN 1; VH emitted; VN pos; VN (sstate_n st')] ++ slip_dec_calls n' sof st' s' k' total
+          | DFail ENODATA => [VS "ENODATA"; VH emitted; VN pos; VN (sstate_n st')]
+          | DFail e => [VS (ename e); VH emitted; VN pos; VN (sstate_n st')] ++ slip_dec_calls n' sof st' s' k' total
+          end
+      end
+  end.
+
+Definition run_slip (op : string) (a : list val) : list val :=
+  if String.eqb op "slip.dec" then
+    let sof := argB 0 a in
+    let s := mk_src (argB 5 a) (argH 2 a) (argLZ 3 a) in
+    let k := mk_snk (argB 6 a) (argLZ 4 a) in
+    slip_dec_calls (N.to_nat (argN 7 a)) sof (sstate_of (argN 1 a)) s k (length (argH 2 a))
+  else if String.eqb op "slip.enc" then
+    let s := mk_src (argB 4 a) (argH 1 a) (argLZ 2 a) in
+    let k := mk_snk (argB 5 a) (argLZ 3 a) in
+    match slip_encode_op (argB 0 a) s k with
+    | None => [VS "out-of-fuel"]
+    | Some (e, s', k') => [verrno e; VH (k_got k')]
+    end
+  else if String.eqb op "slip.trace" then
+    (* the pure multi-call decoder the theorems are about, against repeated calls of the implementation *)
+    flat_map (fun '(r, out) =>
+                [match r with PFrame => VN 1 | PIlseq => VS "EILSEQ" | PNoData => VS "ENODATA" end; VH out])
+             (trace (argB 0 a) (sstate_of (argN 1 a)) (argH 2 a) [])
+  else if String.eqb op "slip.spec" then
+    (* encoder output vs the specification slip_encode, and the worst-case macro *)
+    [VH (slip_encode (argB 0 a) (argH 1 a))]
+  else [VS "unknown-op"].
+
 Definition prefix_of (p s : string) : bool := String.prefix p s.
 
 Definition dispatch (op : string) (a : list val) : list val :=
@@ -134,4 +191,5 @@ Definition dispatch (op : string) (a : list val) : list val :=
   else if prefix_of "bb." op then run_bb op a
   else if prefix_of "vi." op then run_vi op a
   else if prefix_of "ring." op then run_ring op a
+  else if prefix_of "slip." op then run_slip op a
   else [VS "unknown-op"].
